@@ -30,11 +30,39 @@ def generate(seed, tier, enlarged=False):
         if c['calls'][-1][1] == 'run':
             c['calls'][-1][1] = rng.choice(['update', 'force'])
         cases.append(c)
+    # decimal grid (global_time_precision): timesteps like 0.1 whose running float sums are inexact; the timestep
+    # handed is still the length of the interval on the grid
+    cases.append({'kind': 'sched', 'procs': [{'ts': ['const', 0.1], 'cond': ['true']}], 'calls': [[1.0, 'update']],
+                  'emit_step': 1, 't0': 0, 'precision': 1})
+    for i in range(n // 4):
+        c = sched.gen_decimal_case(rng)
+        if c['calls'][-1][1] == 'run':
+            c['calls'][-1][1] = rng.choice(['update', 'force'])
+        cases.append(c)
+    # processes that enter and leave a RUNNING engine (generated, divided, deleted, regenerated under the same
+    # key, with timesteps 1-3): first invoked when created, intervals contiguous
+    from harness import live
+    cases += [dict(live.gen_case(rng), slow=True) for _ in range(n // 6)] + live.corpus_intervals()
     return cases
 
 
 def run(cases, tier='quick', seed=0):
-    return sched.run_family(__import__('harness.c02', fromlist=['x']), cases, seed, PROPS)
+    from harness import live
+    me = __import__('harness.c02', fromlist=['x'])
+
+    class Live:
+        __name__ = 'harness.live'
+        IMPORTS, CHECK_FN, BAD_TERM = live.IMPORTS, live.CHECK_FN, live.BAD_TERM
+        run_impl, render = staticmethod(live.run_impl), staticmethod(live.render)
+        oracle = staticmethod(live.oracle_intervals)
+        nontrivial, stat_key = staticmethod(live.nontrivial), staticmethod(live.stat_key)
+    return common.merge_streams(cases, [
+        (lambda c: c['kind'] == 'sched', lambda cs: sched.run_family(me, cs, seed, PROPS)),
+        (lambda c: c['kind'] == 'live', lambda cs: common.generic_run(Live, cs, seed, shard=20))])
 
 
-model_output = sched.model_output
+def model_output(case, ob):
+    if case['kind'] == 'live':
+        from harness import live
+        return common.coq_eval('LIVE', live.IMPORTS, 'model_out_all %s' % live.render(case, ob))[:4000]
+    return sched.model_output(case, ob)
